@@ -91,6 +91,13 @@ func rawFieldName(v ssa.Value) (string, string) {
 				v = x.Call.Args[0]
 				continue
 			}
+			// an unexported accessor of the same package that returns a field (`func (q *Q) closed() bool { return q.flag.Get() }`)
+			if g := Callee(&x.Call); g != nil && len(g.Blocks) == 1 && g.Object() != nil && !g.Object().Exported() && g.Signature.Results().Len() == 1 {
+				if ret, ok := g.Blocks[0].Instrs[len(g.Blocks[0].Instrs)-1].(*ssa.Return); ok && len(ret.Results) == 1 {
+					v = ret.Results[0]
+					continue
+				}
+			}
 			return "", ""
 		case *ssa.FieldAddr:
 			return typeName(x.X.Type()), rawName(x.X.Type(), x.Field)
